@@ -200,7 +200,7 @@ def n_binary(d):
     return 1 + n_binary(d[2]) + n_binary(d[3])
 
 
-def t_tree_case(t, system=None, licensed=None, max_leaves=6, tok_exclude='', ja_tokens=None):
+def t_tree_case(t, system=None, licensed=None, max_leaves=6, tok_exclude='', ja_tokens=None, variants=False):
     """a derivation + tokens, JSON-able: {'system', 'licensed', 'deriv', 'tokens'}"""
     from vlib import gen_tok
     system = system or t.pick(['en', 'en', 'ja'])
@@ -211,13 +211,26 @@ def t_tree_case(t, system=None, licensed=None, max_leaves=6, tok_exclude='', ja_
         d = t_arbitrary(t, system, max_leaves=max_leaves)
     n = size_of(d)
     use_ja_tokens = (system == 'ja') if ja_tokens is None else ja_tokens
-    toks = [(gen_tok.t_token_ja if use_ja_tokens else gen_tok.t_token_en)(t, tok_exclude) for _ in range(n)]
+    if variants:
+        toks = [gen_tok.t_token_variant(t, 'ja' if use_ja_tokens else 'en', tok_exclude) for _ in range(n)]
+    else:
+        toks = [(gen_tok.t_token_ja if use_ja_tokens else gen_tok.t_token_en)(t, tok_exclude) for _ in range(n)]
     return {'system': system, 'licensed': bool(licensed), 'deriv': deriv_json(d), 'tokens': toks}
 
 
-def tree_of_case(case):
+def tree_of_case(case, tokens=None):
+    """tokens: Token objects to use (the parser shares one Token list between the n-best trees of a sentence)"""
     from vlib import gen_tok
-    return build_tree(deriv_from_json(case['deriv']), [gen_tok.make_token(tk) for tk in case['tokens']])
+    if tokens is None:
+        tokens = [gen_tok.make_token(tk) for tk in case['tokens']]
+    return build_tree(deriv_from_json(case['deriv']), tokens)
+
+
+def sentence_trees(sent):
+    """the trees of one n-best list, sharing their Token objects as parser output does"""
+    from vlib import gen_tok
+    tokens = [gen_tok.make_token(tk) for tk in sent[0]['tokens']]
+    return [tree_of_case(tc, tokens) for tc in sent]
 
 
 def t_derivation_with_label(t, idx, label, max_leaves=5):
